@@ -282,7 +282,7 @@ func c05d05bJointLength(j *c05Judge, recv c05Recv, uRecv cty.Value, calls []c05C
 func c05d05bOnePrecision(ctx *Ctx, scope *[]string) {
 	r := ctx.R
 	precs := []uint{4, 8, 11, 24, 53, 64, 100, 512}
-	n := ctx.N(1200, 40000)
+	n := ctx.N(1200, 15000)
 	done := 0
 	for i := 0; i < n; i++ {
 		prec := precs[r.Intn(len(precs))]
